@@ -38,6 +38,7 @@ def _case(draw, tier):
     c["max_tau"] = draw(gen.maxtau_for(g))
     c["interval"] = draw(gen.interval_arg_for(g))
     c["compiled"] = draw(st.booleans())
+    c["int_times"] = draw(st.booleans())
     return c
 
 
@@ -61,7 +62,7 @@ def _enum(tier, shard, nshards):
 
 
 PHASES = [
-    HypPhase("dyadic", _case, dict(quick=1200, thorough=20000)),
+    HypPhase("dyadic", _case, dict(quick=2500, thorough=20000)),
     EnumPhase("grid3x3", _enum,
               lambda tier: "all ordered triples of subsets of {0..3} on [0,3] x all 12 "
                            "ordered index selections of size 2 or 3"),
@@ -137,6 +138,12 @@ def run_case(case, ctx):
                 "%s(a,b) vs %s(L, indices=%r)" % (name, name, idx[:2]))
         # several trains as arguments / the list / indices
         r_sub = ctx.call(name + "(sub)", fn, sub, **kw)
+        r_tup = ctx.call(name + "(tuple(sub))", fn, tuple(sub), **kw)
+        cmp("tuple_vs_list:" + name, r_tup, r_sub, "%s(tuple) vs %s(list)" % (name, name))
+        if has_iv and iv is not None and not isinstance(iv, list):
+            r_il = ctx.call(name + "(interval as list)", fn, sub, **dict(kw, interval=list(iv)))
+            cmp("interval_list_vs_tuple:" + name, r_il, r_sub,
+                "%s(interval=[a,b]) vs %s(interval=(a,b))" % (name, name))
         if len(sub) >= 3:
             r_star = ctx.call(name + "(*sub)", fn, *sub, **kw)
             cmp("star_args_vs_list:" + name, r_star, r_sub,
